@@ -294,6 +294,30 @@ def check_collapse(prop: str, res: Result, repo: Repo, want=("R-INTERVAL", "R-CO
         res.errors.append(f"{cc.where}: only {n_branches} placing branches found in the collapse walk (expected the merge/append/advance/jump arms)")
     if "R-INVARIANT" in want:
         _collapse_invariant(prop, res, repo, cc, loop, live, outs, S, TF, TS)
+    if "R-CONSERVE" in want:
+        # the walk consumes the whole list: self.candles is touched only by pop(0) (first candle + loop) and the final extend
+        cparams = [p for p in cc.params if p != "self"]
+        if cparams:
+            res.fail("R-CONSERVE", finding(prop, "R-CONSERVE", cc, fn, f"collapse_candles takes parameters {cparams}: which candles are walked must not depend on the caller (batch and incremental passes must agree)", construct=f"collapse_candles({', '.join(cparams)})"))
+        touched = []
+        for n in ast.walk(fn):
+            if isinstance(n, ast.Call) and isinstance(n.func, ast.Attribute) and ast.unparse(n.func.value) == "self.candles":
+                touched.append((n, f"{n.func.attr}({', '.join(ast.unparse(a) for a in n.args)})"))
+            elif isinstance(n, ast.Subscript) and ast.unparse(n.value) == "self.candles":
+                touched.append((n, "self.candles[" + ast.unparse(n.slice) + "]"))
+            elif isinstance(n, (ast.Assign, ast.AugAssign)) and any(ast.unparse(t) == "self.candles" for t in (n.targets if isinstance(n, ast.Assign) else [n.target])):
+                touched.append((n, "self.candles = ..."))
+        allowed = {"pop(0)", "extend(candles_)"}
+        bad = [(n, t) for n, t in touched if t not in allowed]
+        if not bad and sum(1 for _, t in touched if t == "pop(0)") == 2 and sum(1 for _, t in touched if t == "extend(candles_)") == 1:
+            res.ok("R-CONSERVE", {"site": cc.where, "why": "self.candles is consumed candle by candle (pop(0) for the first candle and in the loop `while self.candles`) and refilled once with the rebuilt list"}, nontrivial="collapse:walkall")
+        else:
+            for n, t in bad[:3]:
+                res.fail("R-CONSERVE", finding(prop, "R-CONSERVE", cc, n, f"collapse_candles handles part of the list outside the bucket walk ({t}): candles that bypass the walk are neither merged nor labelled"))
+            if not bad:
+                res.fail("R-CONSERVE", finding(prop, "R-CONSERVE", cc, fn, "collapse_candles no longer pops every candle through the walk and refills the list once", construct="collapse: pops/extend " + ", ".join(t for _, t in touched)))
+        if ast.unparse(loop.test) != "self.candles":
+            res.fail("R-CONSERVE", finding(prop, "R-CONSERVE", cc, loop.test, "the walk must run until self.candles is empty"))
     # ---- after the loop
     if "R-FILLPATH" in want or "R-CONSERVE" in want:
         post = fn.body[fn.body.index(loop) + 1 :]
@@ -624,6 +648,21 @@ def check_trim(prop: str, res: Result, repo: Repo):
     others = [s for s, t in attr_stores(fn)]
     for s in others:
         res.fail(rule, finding(prop, rule, tm, s, "trim_candles stores state"))
+    # the pop(0) in the timestamp loop is the only way candles leave the list
+    removers = []
+    for n in ast.walk(fn):
+        if isinstance(n, ast.Delete):
+            removers.append(n)
+        elif isinstance(n, (ast.Assign, ast.AugAssign)):
+            for t in (n.targets if isinstance(n, ast.Assign) else [n.target]):
+                if "self.candles" in ast.unparse(t):
+                    removers.append(n)
+        elif isinstance(n, ast.Call) and isinstance(n.func, ast.Attribute) and n.func.attr in ("pop", "remove", "clear") and n not in pops and "candles" in ast.unparse(n.func.value):
+            removers.append(n)
+    for r in removers:
+        res.fail(rule, finding(prop, rule, tm, r, "trim_candles removes candles by something other than the timestamp test (e.g. by count): with gaps in the stream the retained window is then not `newest - lifespan`"))
+    if not removers:
+        res.ok(rule, {"site": tm.where, "why": "no other removal (no del / slice assignment / count-based cut)"})
     guard = [n for n in fn.body if isinstance(n, ast.If) and "candles_lifespan is None" in ast.unparse(n.test)]
     if guard:
         res.ok(rule, {"site": tm.where, "guard": "no lifespan / empty list: nothing trimmed"})
